@@ -82,6 +82,10 @@ def ec_pubkey_serialize(pubkey, flag=EC_COMPRESSED, context=None):
 def ecdsa_signature_parse_compact(compact_sig, context=None):
     if len(compact_sig) != 64:
         raise ValueError("Compact signature should be 64 bytes long")
+    r = int.from_bytes(compact_sig[:32], "big")
+    s = int.from_bytes(compact_sig[32:], "big")
+    if r >= _key.SECP256K1_ORDER or s >= _key.SECP256K1_ORDER:
+        raise ValueError("Failed parsing compact signature")
     sig = _reverse64(compact_sig)
     return sig
 
